@@ -145,6 +145,36 @@ def run(ctx):
         rep.check(ok, "D3-PREFIX", where(ee), "emulateN(%s)" % t[:40], "x2/x4 scale the lane count and the index of the chunk's first lane alike",
                   "emulateN is called with offset=`%s`, n=`%s`: for an x2/x4 instruction the lane count and the first lane of the chunk must both be the "
                   "element values shifted by the instruction's shift, or explicit x2/x4 loads and stores index every chunk after the first wrongly" % (unparse(a[1]), t), line=c.line)
+    # ... and so is the ELEMENT offset of loadoffX: the constant / 4-byte parameter staged for the scalar operand of a two-source
+    # load opcode has to be scaled by the instruction's shift as well (the value handed to load_constant depends, through the
+    # function's locals, on opcode_ex[j].shift)
+    from flow import single_defs as _sd3
+    sd3 = _sd3(ee)
+    staged = []
+    for c in ee.calls("load_constant"):
+        a = c.args()
+        if len(a) < 3:
+            continue
+        t3 = unparse(a[2])
+        if ("value.i" in t3 or "params[" in t3) and "<<32" not in t3.replace(" ", "") and "ORC_N_PARAMS" not in t3 and "<< 32" not in t3:
+            leaves, todo, seen3 = set(), [a[2]], set()
+            while todo:
+                e3 = todo.pop()
+                for y in e3.walk():
+                    if y.k == "MemberExpr":
+                        leaves.add(y.name)
+                    if y.k == "DeclRefExpr" and y.get("dk") == "local" and y.name in sd3 and y.name not in seen3:
+                        seen3.add(y.name)
+                        todo.append(sd3[y.name])
+            staged.append((c, "shift" in leaves))
+    if len(staged) < 2:
+        raise AnalysisBroken("orc_executor_emulate: staging of constant / parameter operands (load_constant) not found")
+    for c, ok3 in staged:
+        rep.check(ok3, "D3-PREFIX", where(ee), "staged-scalar@%s" % c.line,
+                  "the staged scalar operand is scaled by the instruction's shift where it is an element offset",
+                  "orc_executor_emulate stages `%s` for the emulation function without regard to the x2/x4 shift: the offset of loadoffX counts array "
+                  "elements, the emulation function walks lanes, so `x2 loadoffw d, s, 1` takes lane l of element i from the middle of another element "
+                  "instead of from element i + 1" % unparse(c.args()[2])[:60], line=c.line)
     src = emus_dispatch_source(ee)
     rep.check(src, "D3-PREFIX", where(ee), "emulateN-from-opcode", "emulateN is taken from the instruction's own opcode",
               "orc_executor_emulate no longer takes emulateN from insn->opcode")
